@@ -150,16 +150,17 @@ class CallRec:
 
 
 class Summary:
-    __slots__ = ("ret", "heap", "effects", "notes", "version")
+    __slots__ = ("ret", "heap", "effects", "notes", "version", "raises")
 
     def __init__(self):
         self.ret: Optional[Val] = None
         self.heap: Dict[tuple, Val] = {}
         self.effects: frozenset = EMPTY  # (kind, obj, field, loc)   kind W | M
+        self.raises: frozenset = EMPTY  # (exception type name, origin loc) that may escape
         self.version = 0
 
     def same(self, o: "Summary") -> bool:
-        return self.ret == o.ret and self.heap == o.heap and self.effects == o.effects
+        return self.ret == o.ret and self.heap == o.heap and self.effects == o.effects and self.raises == o.raises
 
 
 class Ctx:
@@ -179,6 +180,8 @@ class Ctx:
         self.calls_map: Dict[tuple, CallRec] = {}
         self.ret_sites: Dict[int, Val] = {}
         self.ret_states: Dict[int, State] = {}
+        self.node_raises: Dict[int, set] = {}
+        self.raises: set = set()
         self.in_progress = False
         self.done_iter = -1
         self.recording = False
@@ -311,6 +314,10 @@ class Analyzer:
                 return joinall(self.annot_val(a, depth + 1) for a in args)
             if bn in ("Tuple", "tuple", "List", "list"):
                 el = joinall(self.annot_val(a, depth + 1) for a in args if not (isinstance(a, ast.Constant) and a.value is Ellipsis))
+                # element annotations are loose in this repository (Tuple[float] is used for tuples of
+                # tuples as well): keep the kind, but do not claim the element type
+                if el is not None and not any(t.startswith("inst:") for t in el.ty):
+                    el = el.with_(ty=el.ty | {"?"})
                 return Val(ty={"tuple", "list", "ndarray"}, elem=el if el is not None else UNKNOWN)
             if bn == "Callable":
                 return Val(ty={"callable"})
@@ -496,6 +503,8 @@ class FuncInterp(ModelsMixin, CallModelsMixin):
         self.ret: Optional[Val] = None
         self.yields: Optional[Val] = None
         self.exit_state: Optional[State] = None
+        self.dead = False
+        self.nraise = set()
         self.normal_live = self.cfg.normal_live()
 
     # ------------------------------------------------------------------ driver
@@ -507,6 +516,8 @@ class FuncInterp(ModelsMixin, CallModelsMixin):
         ctx.node_effects = {}
         ctx.ret_sites = {}
         ctx.ret_states = {}
+        ctx.node_raises = {}
+        ctx.raises = set()
         ctx.unresolved = []
         st0 = State()
         names = list(self.fi.params)
@@ -528,12 +539,25 @@ class FuncInterp(ModelsMixin, CallModelsMixin):
                 break
             if node.kind in ("exit", "raise"):
                 continue
+            self.nraise = set()
+            self.dead = False
             outs = self.transfer(node, s_in)
+            if self.dead:
+                outs = {k: v for k, v in outs.items() if k == "exc"}
+            if self.nraise:
+                ctx.node_raises[nid] = set(self.nraise)
+                self.escape(node)
             for tgt, lab in node.succ:
                 key = "n" if lab == "back" else lab
                 s_out = outs.get(key)
                 if s_out is None:
                     continue
+                if lab == "exc":
+                    tn = cfg.nodes[tgt]
+                    if not self.nraise:
+                        continue
+                    if tn.kind == "handler" and not self.handler_matches(tn.ast):
+                        continue
                 old = ins.get(tgt)
                 new = join_state(old, s_out, self.initial_field)
                 if old is None or not new.same(old):
@@ -555,6 +579,7 @@ class FuncInterp(ModelsMixin, CallModelsMixin):
             keep = self.reachable_objs(ret, ex.heap)
             new.heap = {k: v.trunc() for k, v in ex.heap.items() if k[0] in keep or root_of(k[0]) is not None or k[0][0] == "G"}
         new.effects = frozenset(ctx.effects)
+        new.raises = frozenset(ctx.raises)
         old = ctx.summary
         merged = Summary()
         merged.ret = join(old.ret, new.ret)
@@ -564,6 +589,7 @@ class FuncInterp(ModelsMixin, CallModelsMixin):
         for k, v in new.heap.items():
             merged.heap[k] = join(merged.heap.get(k), v)
         merged.effects = old.effects | new.effects
+        merged.raises = old.raises | new.raises
         if not merged.same(old):
             self.A.changed = True
             merged.version = old.version + 1
@@ -588,6 +614,48 @@ class FuncInterp(ModelsMixin, CallModelsMixin):
             for v in byobj.get(o, ()):
                 todo.extend(v.all_pts())
         return seen
+
+    # ------------------------------------------------------------------ exceptions (E6)
+    def may_raise(self, *types, node=None):
+        for t in types:
+            self.nraise.add((t, self.loc(node if node is not None else (self.cur.ast if self.cur is not None else self.fi.node))))
+
+    @staticmethod
+    def _exc_sub(a: str, b: str) -> bool:
+        from .index import BUILTIN_EXC, exc_is_sub
+
+        if a == "*" or b in ("BaseException",):
+            return True
+        if a not in BUILTIN_EXC:
+            return b in ("Exception", a)
+        return exc_is_sub(a, b)
+
+    def handler_matches(self, h: ast.ExceptHandler) -> bool:
+        from .cfg import handler_types
+
+        hts = handler_types(h)
+        for t, _ in self.nraise:
+            if t == "*":
+                return True
+            for ht in hts:
+                if self._exc_sub(t, ht) or self._exc_sub(ht, t):
+                    return True
+        return False
+
+    def escape(self, node):
+        """exception types raised at this node that no enclosing handler catches"""
+        tries = node.handlers or []
+        for t, loc in self.nraise:
+            caught = False
+            for tr in tries:
+                for hts in tr:
+                    if any((t != "*" and self._exc_sub(t, ht)) or ht in ("BaseException", "Exception") for ht in hts):
+                        caught = True
+                        break
+                if caught:
+                    break
+            if not caught:
+                self.ctx.raises.add((t, loc))
 
     # ------------------------------------------------------------------ misc helpers
     def site(self, node: ast.AST, tag: str = "") -> tuple:
@@ -801,10 +869,16 @@ class FuncInterp(ModelsMixin, CallModelsMixin):
         elif isinstance(a, ast.Raise):
             if a.exc is not None:
                 self.ev(a.exc, st)
+            from .cfg import raised_type
+
+            self.nraise = {x for x in self.nraise if False}  # building the exception object itself is not modelled as failing
+            self.may_raise(raised_type(a) or "*", node=a)
             return {"exc": self.exc_state(s_in, st)}
         elif isinstance(a, ast.Assert):
             self.ev(a.test, st)
             tr = self.truth(a.test, st)
+            if False in tr:
+                self.may_raise("AssertionError", node=a)
             s2 = self.narrow(a.test, st, True) if True in tr else None
             return {"n": s2, "exc": self.exc_state(s_in, st)}
         elif isinstance(a, ast.With):
@@ -869,6 +943,8 @@ class FuncInterp(ModelsMixin, CallModelsMixin):
             self.rec(tgt, st.env[tgt.id])
         elif isinstance(tgt, (ast.Tuple, ast.List)):
             n = len(tgt.elts)
+            if v.items is None or len(v.items) != n:
+                self.may_raise("ValueError", "TypeError", node=tgt)
             for i, t in enumerate(tgt.elts):
                 if isinstance(t, ast.Starred):
                     self.assign(t.value, Val(ty={"list"}, elem=self.iter_elem(v, st, tgt), dep=v.dep), st, stmt)
@@ -1492,6 +1568,7 @@ class FuncInterp(ModelsMixin, CallModelsMixin):
                 continue
             else:
                 # unknown callable (user function): result is user data
+                self.may_raise("*", node=node)
                 d = fv.dep.union(*[p.dep for p in pos]) if pos else fv.dep
                 m = fv.mdep.union(*[p.mdep for p in pos]) if pos else fv.mdep
                 res = join(res, Val(ty={"?"}, pts={("N", self.site(node, "ucall"))}, dep=d, mdep=m, kind=self.A.user_number().kind))
@@ -1558,6 +1635,8 @@ class FuncInterp(ModelsMixin, CallModelsMixin):
         args = self.bind_args(fi, pos, kw, star)
         ctx, summ = self.A.analyze(fi, args)
         self.ctx.callee_seen[ctx.key] = (summ.version, ctx.param_ver)
+        if summ.raises:
+            self.nraise |= summ.raises
         ret = self.apply_summary(fi, summ, args, st, node)
         names = list(fi.params) + ([fi.vararg] if getattr(fi, "vararg", None) else [])
         bound = dict(zip(names, args))
@@ -1580,7 +1659,11 @@ class FuncInterp(ModelsMixin, CallModelsMixin):
             if not tg:
                 continue
             updates.append((tg, f, sub.val(v)))
-        ret = sub.val(summ.ret) if summ.ret is not None else Val()  # bottom: callee never returns (yet)
+        if summ.ret is None:
+            # bottom: the callee has no return yet (recursion in progress / it always raises):
+            # the statement does not complete normally in this approximation
+            self.dead = True
+        ret = sub.val(summ.ret) if summ.ret is not None else Val()
         strong: Dict[tuple, Val] = {}
         weak: Dict[tuple, Val] = {}
         for tg, f, nv in updates:
